@@ -191,8 +191,14 @@ class Transmission(WithObservers, LoggingTrait):
             and len(user_data) >= 5
         ):
             # print(f"udp/ipv4 compressed {user_data.hex()}")
-            udp_ip = UDPIPv4CompressedHeader.from_bits(bits=bytes_to_bits(user_data))
-            print(repr(udp_ip))
+            try:
+                udp_ip = UDPIPv4CompressedHeader.from_bits(
+                    bits=bytes_to_bits(user_data)
+                )
+                print(repr(udp_ip))
+            except AssertionError as e:
+                # user data shorter than the extended header(s) it announces
+                self.log_warning(f"UDP/IPv4 compressed header not decoded: {e}")
 
         # print("\n" * 3)
 
